@@ -244,8 +244,15 @@ def drive(check, tier, seed, workers=None, budget_s=None):
             known_seen[sig] = (e, len(vs))
         else:
             unknown.append((sig, vs))
+    per_entry = collections.OrderedDict()
     for sig, (e, n) in known_seen.items():
-        print('KNOWN-FINDING: property=%s %s [signature %s, seen %d times]' % (check.ID, e.get('what', ''), sig, n))
+        key = e.get('signature') or e.get('signature_glob')
+        ent = per_entry.setdefault(key, [e, 0, []])
+        ent[1] += n
+        ent[2].append(sig)
+    for key, (e, n, sigs) in per_entry.items():
+        print('KNOWN-FINDING: property=%s %s [listed as %s; seen %d times under %d signature(s); witness %s]' % (
+            check.ID, e.get('what', ''), key, n, len(sigs), e.get('replay', '-')))
     exit_code = 0
     reported = 0
     for sig, vs in unknown:
